@@ -66,7 +66,10 @@ def findFrom (line : Bytes) (re : Re) : Nat → Nat → Option (Nat × Nat)
     if pos > line.length then none
     else match maxOf (ends line (reFuel line re) re pos) with
       | some e => some (pos, e)
-      | none => findFrom line re f (pos + 1)
+      | none =>
+        -- Go's matchers step through the input rune by rune from the start position, so a match never begins inside a
+        -- multi-byte character (thorough seed 3: `..` against the single character U+2003 must not match its last two bytes)
+        findFrom line re f (pos + (if pos < line.length then (decodeRune (line.drop pos)).2 else 1))
 
 /-- the loop of `regexp.(*Regexp).allMatches` -/
 def findAllAux (line : Bytes) (re : Re) : Nat → Nat → Option Nat → List (Nat × Nat)
